@@ -18,11 +18,22 @@ Clauses (DESIGN §4 C04):
       first input txid / index / swapped first input.
   A4  the three real main-net pairs signed by earlier releases validate (lbry AND reference) and stop
       validating under the same mutations.
+  A5  claims signed OUTSIDE the wallet by the independent signer (earlier-release v1 rule: sha256(claim address ‖ payload
+      without signature ‖ certificate id); present rule), delivered as raw bytes assembled by the harness in every
+      claim-carrying output template (claim-name / update-claim x pays-to-pubkey-hash / pays-to-script-hash) against every
+      channel encoding (v1 certificate, DER key, compressed key; name claim or update) validate, and stop validating under
+      the same mutations.
+  A6  the same as A2 when claim and channel went through the wallet database in between (channel_create -> stream_create ->
+      channel_update keeping / REPLACING the signing key -> stream_create -> stream_update without channel arguments, every step
+      re-reading its objects with the wallet's listing calls as the daemon does): what the wallet signs validates against
+      the channel version the harness itself broadcast last, and a claim the current channel signed validates against the
+      channel the listing attaches to it.
 """
 import hashlib
 import json
 import os
 import random
+import struct
 
 from vlib import boot, walletfx
 from vlib.ref import minitx, sighash, chansig
@@ -36,7 +47,10 @@ RULE = ('tx case = funded wallet (2-3 accounts incl. an optional single-address 
         'tx.sign), hand-assembled with random version/locktime/sequences, or signed twice; chan case = channel (deterministic, '
         'random-secret, boundary-secret or PEM-imported key; optionally updated) + 3..6 claims/supports signed as the daemon '
         'does (claim_create/claim_update/support with signing_channel, Output.sign after funding, tx.sign), each then mutated; '
-        'legacy case = 3 real main-net pairs. evaluations = transactions signed + mutations judged; distinct = hash(kind, '
+        'legacy case = 3 real main-net pairs; foreign case = channel (v1 certificate / DER key / compressed key, name claim or update) + 8 claims '
+        '(v1 and present format x 4 output templates incl. pays-to-script-hash) signed by the independent signer and serialised by the harness, each '
+        'then mutated; rotate case = channel + claims driven through the wallet database with 1..3 channel updates (>= 1 replacing the signing key) '
+        'in between, every held claim then updated with the channel the listing attached. evaluations = transactions signed + mutations judged; distinct = hash(kind, '
         '#inputs, spent-script classes, output kind, mode) for transactions and (mutation class, position, claim kind) for '
         'mutations; non-trivial = every transaction with >= 1 verified input, every mutation that changed a byte')
 ASSUMPTIONS = [
@@ -64,6 +78,11 @@ REQUIRED_HITS = [
     'A3.other_channel_key', 'A3.channel_key_damaged', 'A3.first_input_txid', 'A3.first_input_index', 'A3.first_input_swapped',
     'A4.validates', 'A4.ref_verified', 'A4.high_s_validates', 'A4.sig_bit', 'A4.payload_bit', 'A4.channel_hash_bit', 'A4.other_channel',
     'A4.first_input_txid', 'A4.first_input_index', 'A4.channel_key_damaged',
+    'A5.validates', 'A5.ref_verified', 'A5.format.v1', 'A5.format.v2', 'A5.template.claim_name+pay_pubkey_hash',
+    'A5.template.claim_name+pay_script_hash', 'A5.template.update_claim+pay_pubkey_hash', 'A5.template.update_claim+pay_script_hash',
+    'A5.sig_bit', 'A5.payload_bit', 'A5.channel_hash_bit', 'A5.other_channel',
+    'A6.channel_key_replaced', 'A6.created_with_reloaded_channel', 'A6.updated_after_key_replaced', 'A6.ref_verified',
+    'A6.listing_checked', 'A6.listing_checked_after_key_replaced',
 ]
 FIX = os.path.join(boot.VERIF, 'fixtures', 'c04_legacy_pairs.json')
 NINS = [1, 2, 3, 5, 8, 13, 20, 1, 2, 4, 6, 16]
@@ -84,6 +103,15 @@ def required_hits(tier):
 def gen_cases(rng, tier, shard, nshards):
     quick = tier == 'quick'
     yield {'fam': 'legacy', 'part': shard, 'parts': nshards, 'seed': rng.getrandbits(48)}
+    sub = random.Random()
+    sub.setstate(rng.getstate())                # own generator for the two families added last: `rng` is not advanced, the cases of
+    sub = random.Random(sub.getrandbits(64) ^ 0xC04A5A6)     # the other families stay what they were
+    for i in range(1 if quick else 40):
+        # quick: the two families alternate over the shards
+        if not quick or (shard + i) % 2 == 1:
+            yield {'fam': 'foreign', 'seed': sub.getrandbits(48)}
+        if not quick or (shard + i) % 2 == 0:
+            yield {'fam': 'rotate', 'seed': sub.getrandbits(48), 'newkey': ['deterministic', 'imported'][(shard // 2 + i) % 2]}
     if shard == nshards - 1 or not quick:      # last shard: its (large) witnesses come last when shards are merged
         yield {'fam': 'tx', 'seed': rng.getrandbits(48), 'nin': 260 if quick else rng.choice([253, 260, 300]), 'mode': 'manual',
                'okind': 'pay'}
@@ -296,10 +324,13 @@ class Env:
         self.remember(tx)
         return tx, txos
 
-    async def broadcast(self, tx):
-        """store a built transaction the way a sync would (inputs become spent, own outputs spendable)"""
+    async def broadcast(self, tx, height=None, position=0):
+        """store a built transaction the way a sync would (inputs become spent, own outputs spendable); height: 0 = seen in the mempool,
+        > 0 = in a block (default: left as built)"""
         ledger = self.fx.ledger
         self.remember(tx)
+        if height is not None:
+            tx.height, tx.position, tx.is_verified = height, position, height > 0
         await ledger.db.insert_transaction(tx)
         rows = await self.fx.sql("select address from account_address")
         mine = {row['address'] for row in rows}
@@ -313,11 +344,17 @@ class Env:
                 addrs[txo.get_address(ledger)] = txo.pubkey_hash
         for a, h in addrs.items():
             if a in mine:
-                await ledger.db.save_transaction_io(tx, a, h, f'{tx.id}:0:')
+                await ledger.db.save_transaction_io(tx, a, h, f'{tx.id}:{max(tx.height, 0)}:')
         for acc in self.fx.accounts:
             await acc.ensure_address_gap()
         self.addr_cache.clear()
         await ledger.release_tx(tx)
+
+    async def confirm(self, txs, height):
+        """a block arrives: transactions seen in the mempool get their height and position (Ledger.update_history -> update_transaction)"""
+        for k, tx in enumerate(txs):
+            tx.height, tx.position, tx.is_verified = height, k + 1, True
+            await self.fx.ledger.db.update_transaction(tx)
 
 
 async def open_env(r, n_accounts=2, single=False, rate=None):
@@ -860,8 +897,9 @@ def _null_mutation(V, raw, mut):
 
 
 # ------------------------------------------------------------------------------------- fam: chan  (A1 + A2 + A3)
-def ref_check_signed(rec, raw, chan_raw, chan_nout, chan_secret, kind, clause='A2'):
-    """A2 reference side, from wire bytes only.  returns True when everything agreed."""
+def ref_check_signed(rec, raw, chan_raw, chan_nout, chan_secret, kind, clause='A2', retired=()):
+    """A2 reference side, from wire bytes only.  returns True when everything agreed.  retired: public keys that earlier versions of
+    the channel carried (only used to name the mechanism of a failure)."""
     m, cm = minitx.parse(raw), minitx.parse(chan_raw)
     value = claim_value_of(m['outputs'][0]['script'])
     env = chansig.envelope(value)
@@ -899,10 +937,15 @@ def ref_check_signed(rec, raw, chan_raw, chan_nout, chan_secret, kind, clause='A
         for i in range(1, len(m['inputs'])):
             alts.append(('outpoint-of-another-input', chansig.digest_v2(chansig.outpoint(m['inputs'][i]['txid'], m['inputs'][i]['nout']),
                                                                          env['channel_hash'], env['message'])))
-        variant = next((n for n, d in alts if chansig.verify_compact(pub, env['signature'], d)), 'nothing-recognised')
+        variant = next((n for n, d in alts if chansig.verify_compact(pub, env['signature'], d)), None)
+        if variant is None and any(chansig.verify_compact(p, env['signature'], digest) for p in retired):
+            variant = 'signed-with-retired-channel-key'
+        variant = variant or 'nothing-recognised'
+        instead = 'it verifies over that digest under a public key an EARLIER version of the channel carried' \
+            if variant == 'signed-with-retired-channel-key' else f'verifies instead over: {variant}'
         rec.violation(f'C04/{clause}/reference-verification-fails/{variant}',
                       f'{kind}: 64-byte signature does not verify (ecdsa) over sha256(first input outpoint ‖ channel hash ‖ message); '
-                      f'verifies instead over: {variant}', dict(wit, digest=digest))
+                      f'{instead}', dict(wit, digest=digest))
         return False
     rec.hit(f'{clause}.ref_verified')
     return True
@@ -1230,6 +1273,10 @@ def execute(rec, case):
         _run_legacy(rec, case)
     elif fam == 'dbreload':
         walletfx.run(_run_dbreload(rec, case), timeout=600)
+    elif fam == 'foreign':
+        _run_foreign(rec, case)
+    elif fam == 'rotate':
+        walletfx.run(_run_rotate(rec, case), timeout=600)
     else:
         raise ValueError(fam)
 
@@ -1334,3 +1381,418 @@ async def _run_dbreload(rec, case):
             rec.case(['dbreload', kind, len(m['inputs'])], sample={'fam': 'dbreload', 'kind': kind, 'inputs': len(m['inputs'])} if kind == 'v2-der' else None)
     finally:
         await ledger.db.close()
+
+
+# ------------------------------------------------------------------------------------- fam: foreign  (A5: signed outside the wallet)
+def _push(data):
+    data = bytes(data)
+    n = len(data)
+    if n < 76:
+        return bytes([n]) + data
+    if n < 256:
+        return b'\x4c' + bytes([n]) + data
+    if n < 65536:
+        return b'\x4d' + n.to_bytes(2, 'little') + data
+    raise RuntimeError('harness: push too long')
+
+
+def _compact_size(n):
+    return bytes([n]) if n < 253 else b'\xfd' + n.to_bytes(2, 'little') if n <= 0xFFFF else b'\xfe' + n.to_bytes(4, 'little')
+
+
+def wire_tx(inputs, outputs, version=1, locktime=0):
+    """raw transaction assembled by the harness, as a server would send it.  inputs [(txid hex, nout, scriptSig, sequence)], outputs
+    [(amount, script)]"""
+    b = version.to_bytes(4, 'little') + _compact_size(len(inputs))
+    for txid, nout, script, seq in inputs:
+        b += bytes.fromhex(txid)[::-1] + nout.to_bytes(4, 'little') + _compact_size(len(script)) + script + seq.to_bytes(4, 'little')
+    b += _compact_size(len(outputs))
+    for amount, script in outputs:
+        b += amount.to_bytes(8, 'little') + _compact_size(len(script)) + script
+    return b + locktime.to_bytes(4, 'little')
+
+
+def claim_script_bytes(op, name, value, pays_to, h160, claim_hash=None):
+    """OP_CLAIM_NAME <name> <value> OP_2DROP OP_DROP | OP_UPDATE_CLAIM <name> <claim hash> <value> OP_2DROP OP_2DROP, then P2PKH or P2SH"""
+    if op == 'claim_name':
+        head = b'\xb5' + _push(name) + _push(value) + b'\x6d\x75'
+    else:
+        head = b'\xb7' + _push(name) + _push(claim_hash) + _push(value) + b'\x6d\x6d'
+    return head + (b'\x76\xa9\x14' + h160 + b'\x88\xac' if pays_to == 'pubkey' else b'\xa9\x14' + h160 + b'\x87')
+
+
+def claim_address_of(script):
+    """the 25 raw bytes of the main-net address a claim script pays to, from the script bytes"""
+    h = sighash.p2pkh_tail(script)
+    if h is not None:
+        return chansig.address_bytes(h, chansig.MAINNET_P2PKH_PREFIX)
+    h = sighash.p2sh_hash(bytes(script)[-23:])
+    if h is None:
+        raise RuntimeError('harness: claim script pays neither to a public-key hash nor to a script hash')
+    return chansig.address_bytes(h, chansig.MAINNET_P2SH_PREFIX)
+
+
+def v1_stream_claim(r):
+    """an earlier-release (lbryschema v1) stream claim, written field by field in canonical order by the reference's own protobuf
+    writer: Claim{1 version, 2 claimType=stream, 3 Stream{1 version, 2 Metadata{1 version, 2 language, 3 title, 4 description, 5 author,
+    6 license, 7 nsfw, [8 Fee{1 version, 2 currency, 3 address, 4 amount(float)}], [9 thumbnail], [11 licenseUrl]}, 3 Source{1 version,
+    2 sourceType, 3 sd hash, 4 contentType}}}"""
+    W, B = chansig.wire_varint_field, chansig.wire_bytes_field
+    meta = (W(1, r.choice([1, 2, 3, 4])) + W(2, r.choice([1, 2, 3, 5, 7])) + B(3, text(r, r.choice([1, 12, 60])).encode()) +
+            B(4, text(r, r.choice([0, 10, 300])).encode()) + B(5, text(r, r.choice([0, 8])).encode()) +
+            B(6, r.choice([b'', b'Public Domain', b'Copyrighted (contact author)'])) + W(7, r.choice([0, 0, 1])))
+    if r.random() < 0.4:
+        meta += B(8, W(1, 1) + W(2, r.choice([1, 2, 3])) + B(3, chansig.address_bytes(r.randbytes(20), chansig.MAINNET_P2PKH_PREFIX)) +
+                  bytes([4 << 3 | 5]) + struct.pack('<f', r.choice([0.5, 1.0, 2.0, 10.0])))
+    if r.random() < 0.6:
+        meta += B(9, b'https://thumb/' + str(r.randrange(10 ** 6)).encode())
+    if r.random() < 0.2:
+        meta += B(11, b'https://example.com/l')
+    source = W(1, 1) + W(2, 1) + B(3, r.randbytes(48)) + B(4, r.choice([b'video/mp4', b'application/octet-stream']))
+    return W(1, 1) + W(2, 1) + B(3, W(1, 1) + B(2, meta) + B(3, source))
+
+
+def channel_value(form, secret):
+    """channel claim value in one of the three encodings found on chain: v1 certificate (DER key), present format with the DER key of
+    the transition releases, present format with a compressed key"""
+    W, B = chansig.wire_varint_field, chansig.wire_bytes_field
+    der = chansig.SPKI_SECP256K1_PREFIX + chansig.uncompressed_from_secret(secret)
+    if form == 'v1-cert':
+        return W(1, 1) + W(2, 2) + B(4, W(1, 1) + W(2, 3) + B(4, der))
+    return b'\x00' + B(2, B(1, der if form == 'v2-der' else chansig.public_from_secret(secret))) + B(8, b'a channel')
+
+
+def _run_foreign(rec, case):
+    """A5 (added after seeded break C04-J): the wallet validates what others signed.  The three main-net pairs of A4 all pay to a public-key
+    hash and are all name claims; here the independent signer produces signatures by the earlier releases' rule and by the present rule for
+    every output template that can carry a claim, the harness serialises scripts and transactions itself, and the real is_signed_by judges
+    them re-parsed from those bytes (what resolve / claim_search / claim_list do with data a server sent)."""
+    boot.import_lbry()
+    from lbry.wallet import Ledger, Database, Headers
+    ledger = Ledger({'db': Database(':memory:'), 'headers': Headers(':memory:')})
+    V = Validator(rec, ledger)
+    r = random.Random(case['seed'])
+
+    def funding_input():
+        return (r.randbytes(32).hex(), r.choice([0, 1, 7]), _push(b'\x30' + r.randbytes(69) + b'\x01') + _push(b'\x02' + r.randbytes(32)),
+                r.choice([0xFFFFFFFF, 0xFFFFFFFE]))
+
+    def p2pkh():
+        return b'\x76\xa9\x14' + r.randbytes(20) + b'\x88\xac'
+
+    def channel_tx(form, op, sec):
+        """-> (raw transaction, claim hash of the channel)"""
+        chash = r.randbytes(20) if op == 'update_claim' else None
+        script = claim_script_bytes(op, b'@' + text(r, 6).replace(' ', '_').encode(), channel_value(form, sec), r.choice(['pubkey', 'script']),
+                                    r.randbytes(20), chash)
+        raw = wire_tx([funding_input()], [(r.randrange(10 ** 5, 10 ** 8), script), (r.randrange(10 ** 5, 10 ** 8), p2pkh())],
+                      locktime=r.getrandbits(20))
+        return raw, chash or chansig.claim_hash(bytes.fromhex(minitx.parse(raw)['txid'])[::-1], 0)
+
+    sec, other_sec = (r.randrange(1, chansig.N).to_bytes(32, 'big') for _ in range(2))
+    forms = [(f, op) for f in ('v1-cert', 'v2-der', 'modern') for op in ('claim_name', 'update_claim')]
+    for fmt in ('v1', 'v2'):
+        for op in ('claim_name', 'update_claim'):
+            for pays_to in ('pubkey', 'script'):
+                if rec.out_of_time():
+                    return
+                template = f'{op}+pay_{pays_to}_hash'
+                form, chan_op = r.choice(forms)
+                chan_raw, chash = channel_tx(form, chan_op, sec)
+                other_raw, _ = channel_tx(r.choice(['v1-cert', 'modern']), 'claim_name', other_sec)
+                h160 = r.randbytes(20)
+                inputs = [funding_input() for _ in range(r.choice([1, 1, 2, 3]))]
+                if fmt == 'v1':
+                    unsigned = v1_stream_claim(r)
+                    address = chansig.address_bytes(h160, chansig.MAINNET_P2PKH_PREFIX if pays_to == 'pubkey' else chansig.MAINNET_P2SH_PREFIX)
+                    sig = chansig.sign_compact(sec, chansig.digest_v1(address, unsigned, chash[::-1]))
+                    value = unsigned + chansig.v1_signature_field(sig, chash[::-1])
+                else:
+                    message = make_claim(r, r.choice(['stream', 'repost', 'collection', 'empty'])).to_message_bytes()
+                    sig = chansig.sign_compact(sec, chansig.digest_v2(chansig.outpoint(inputs[0][0], inputs[0][1]), chash, message))
+                    value = b'\x01' + chash + sig + message
+                script = claim_script_bytes(op, r.choice([b'old-stream', b'ab', 'ünï'.encode()]), value, pays_to, h160, r.randbytes(20))
+                raw = wire_tx(inputs, [(r.randrange(10 ** 4, 10 ** 8), script)] + [(r.randrange(10 ** 4, 10 ** 8), p2pkh())] * r.choice([0, 1]),
+                              locktime=r.getrandbits(20))
+                # ---- reference side, from the bytes only (keeps the harness honest: writer, signer and reader must agree)
+                m, cm = minitx.parse(raw), minitx.parse(chan_raw)
+                env = chansig.envelope(claim_value_of(m['outputs'][0]['script']))
+                pub = chansig.channel_public_key(claim_value_of(cm['outputs'][0]['script']))
+                if fmt == 'v1':
+                    digest = chansig.digest_v1(claim_address_of(m['outputs'][0]['script']), env['unsigned_payload'], env['certificate_id'])
+                else:
+                    digest = chansig.digest_v2(chansig.outpoint(m['inputs'][0]['txid'], m['inputs'][0]['nout']), env['channel_hash'], env['message'])
+                if env['format'] != {'v1': 'v1', 'v2': 'v2-signed'}[fmt] or env['channel_hash'] != chash or \
+                        not chansig.verify_compact(pub, env['signature'], digest):
+                    raise RuntimeError(f'harness: reference does not verify its own {fmt} signature in {template}')
+                rec.hit('A5.ref_verified')
+                rec.log('A5.sig.high_s' if int.from_bytes(sig[32:], 'big') > chansig.N // 2 else 'A5.sig.low_s')
+                # ---- the real code
+                ok, exc = V.validates(raw, chan_raw)
+                rec.hit('A5.validates')
+                rec.hit('A5.format.' + fmt)
+                rec.hit('A5.template.' + template)
+                rec.hit(f'A5.channel.{form}.{chan_op}')
+                rec.case(['foreign', fmt, template, form, chan_op], nontrivial=True,
+                         sample={'fam': 'foreign', 'format': fmt, 'template': template, 'channel': f'{form} in {chan_op}', 'validates': ok,
+                                 'claim_address': claim_address_of(m['outputs'][0]['script']).hex(), 'tx': raw.hex()} if (fmt, pays_to) == ('v1', 'script')
+                         else None)
+                if not ok:
+                    rec.violation(f'C04/A5/independently-signed-claim-does-not-validate/{fmt}/{template}',
+                                  f'{fmt}-format claim in a {template} output, signed by the independent signer for a {form} channel ({chan_op}): '
+                                  f'the 64-byte signature verifies (ecdsa) over the reference digest {digest.hex()} but is_signed_by does not accept '
+                                  f'it ({exc!r})', {'format': fmt, 'template': template, 'channel_form': form, 'tx': raw, 'channel_tx': chan_raw,
+                                                    'digest': digest})
+                    continue
+                if fmt == 'v2' and pays_to != 'script':
+                    continue        # mutations of present-format claims in the usual templates: A3
+                mutate_signed(rec, V, r, raw, chan_raw, template, 'A5', False, [other_raw], v1=(fmt == 'v1'), budget_bits=16)
+                poff = locate(chan_raw, pub, 'channel public key')
+                for b in sorted(r.sample(range((len(pub) - 32) * 8, len(pub) * 8), 4)):
+                    V.judge('A5', 'channel_key_damaged', raw, flip(chan_raw, poff + b // 8, b % 8), f'channel public key bit {b} flipped',
+                            {'template': template, 'bit': b}, template, b)
+                if fmt == 'v1':
+                    # v1 signatures commit to the claim address: observed (the statement does not list the address)
+                    hoff = locate(raw, h160, 'claim address hash')
+                    V.judge('A5', 'v1_claim_address', flip(raw, hoff + r.randrange(20), r.randrange(8)), chan_raw, '', {}, template, judged=False)
+
+
+# ------------------------------------------------------------------------------------- fam: rotate  (A6: through the wallet database)
+async def _run_rotate(rec, case):
+    """A6 (added after seeded break C04-I): the daemon never signs with the objects it built a moment ago - every command reads the claim
+    and its channel back from the wallet database (get_channel_or_error -> Ledger.get_channels; stream_update / collection_update without
+    channel arguments -> `old_txo.channel` as attached by Ledger.get_claims).  The history that matters is a channel that was updated in
+    between, above all one whose signing key was REPLACED (channel_update --new_signing_key): its earlier versions, spent, are still in the
+    database together with their keys.  The harness keeps its own record of every channel version it broadcast and judges each signature
+    against the version it broadcast last."""
+    boot.import_lbry()
+    from lbry.wallet import Transaction
+    from lbry.wallet.bip32 import PrivateKey
+    from lbry.error import InsufficientFundsError
+    from lbry.schema.claim import Claim
+    r = random.Random(case['seed'])
+    random.seed(case['seed'])
+    env = await open_env(r, 2, single=False, rate=r.choice([1, 50]))
+    fx, ledger = env.fx, env.fx.ledger
+    wallet, funding = fx.wallet, list(fx.accounts)
+    V = Validator(rec, ledger)
+    try:
+        nacc = len(funding)
+        await env.fund([(r.randrange(nacc), r.choice([0, 0, 1]), r.randrange(25), _factory(r, 'pay', r.randrange(2 * 10 ** 7, 4 * 10 ** 7)))
+                        for _ in range(r.randrange(12, 20))])
+        versions = []       # harness-side record of the channel versions it broadcast, oldest first: raw tx, txid, secret, public key on the wire
+        held = {}           # claim id -> {'raw', 'kind', 'pub': channel key under which the reference verified its present signature}
+        replaced = 0
+
+        async def addr():
+            return await env.address(r.randrange(nacc), 0, r.randrange(20))
+
+        chain = {'height': 20, 'mempool': []}
+
+        async def publish(tx):
+            """broadcast: seen in the mempool first (height 0) or mined at once; a block takes everything that waits in the mempool"""
+            if r.random() < 0.5:
+                await env.broadcast(tx, 0)
+                chain['mempool'].append(tx)
+            else:
+                chain['height'] += r.choice([1, 1, 3])
+                await env.confirm(chain['mempool'], chain['height'])
+                await env.broadcast(tx, chain['height'], len(chain['mempool']) + 1)
+                chain['mempool'] = []
+
+        async def maybe_block():
+            if chain['mempool'] and r.random() < 0.6:
+                chain['height'] += 1
+                await env.confirm(chain['mempool'], chain['height'])
+                chain['mempool'] = []
+
+        async def new_key():
+            if case['newkey'] == 'deterministic':
+                return await funding[0].generate_channel_private_key()      # channel_create, channel_update --new_signing_key
+            key = PrivateKey.from_bytes(ledger, r.randbytes(32))            # channel_import
+            funding[0].add_channel_private_key(key)
+            return key
+
+        def record_version(tx, secret):
+            m = minitx.parse(tx.raw)
+            versions.append({'raw': tx.raw, 'txid': m['txid'], 'secret': secret,
+                             'pub': chansig.channel_public_key(claim_value_of(m['outputs'][0]['script']))})
+
+        def judge(tx, kind, flow, stale):
+            """the signature the wallet just made, against the channel version the harness broadcast last"""
+            raw, cur = tx.raw, versions[-1]
+            check_inputs(rec, raw, env.spent, {'flow': 'rotate/' + flow})
+            wit = {'flow': flow, 'kind': kind, 'tx': raw, 'current_channel_tx': cur['raw'], 'channel_versions_broadcast': len(versions),
+                   'signing_keys_replaced': replaced}
+            ok_wire, exc = V.validates(raw, cur['raw'])
+            if not ok_wire:
+                rec.violation(f'C04/A6/is_signed_by-false/{flow}', f'{kind} signed with the channel the wallet database returned, after '
+                              f'{len(versions) - 1} channel update(s) of which {replaced} replaced the signing key: does not validate against the '
+                              f'channel as broadcast last ({exc!r})', wit)
+            ok_ref = ref_check_signed(rec, raw, cur['raw'], 0, cur['secret'], kind, clause='A6',
+                                      retired=[v['pub'] for v in versions[:-1] if v['pub'] != cur['pub']])
+            rec.hit('A6.created_with_reloaded_channel' if flow == 'create-with-reloaded-channel' else 'A6.updated_reloaded_claim')
+            if stale:
+                rec.hit('A6.updated_after_key_replaced')
+            m = minitx.parse(raw)
+            rec.case(['rotate', flow, kind, len(versions), replaced, stale], nontrivial=True,
+                     sample={'fam': 'rotate', 'flow': flow, 'kind': kind, 'channel_versions': len(versions), 'keys_replaced': replaced,
+                             'previous_signature_was_stale': stale, 'txid': m['txid']} if stale else None)
+            return (ok_wire and ok_ref), m
+
+        async def observe_listing():
+            """claim_list: a claim whose signature the reference verifies under the CURRENT channel key validates against the channel the
+            listing attached (JSONResponseEncoder: is_channel_signature_valid = txo.is_signed_by(txo.channel, ledger))"""
+            cur = versions[-1]
+            for cid in sorted(held):
+                s = held[cid]
+                loaded = await ledger.get_claims(wallet=wallet, accounts=funding, claim_id=cid)
+                if len(loaded) != 1 or loaded[0].tx_ref.tx.raw != s['raw']:
+                    rec.log('A6.list.claim_not_listed_as_broadcast')
+                    continue
+                txo = loaded[0]
+                att = txo.channel
+                if att is None:
+                    rec.log('A6.list.no_channel_attached')
+                    continue
+                try:
+                    says = bool(txo.is_signed_by(att, ledger))
+                except Exception as e:  # noqa
+                    says = False
+                    rec.log(f'A6.list.rejected_by_exception.{type(e).__name__}')
+                if s['pub'] != cur['pub']:
+                    # signed with a key the channel no longer carries: what the listing should say is not part of the statement
+                    rec.log('A6.list.stale_signature.' + ('reported_valid' if says else 'reported_invalid'))
+                    continue
+                rec.hit('A6.listing_checked')
+                if replaced:
+                    rec.hit('A6.listing_checked_after_key_replaced')
+                if not says:
+                    pos = [i for i, v in enumerate(versions) if v['txid'] == att.tx_ref.id and att.position == 0]
+                    which = 'unknown-channel-attached' if not pos else 'current-version-attached' if pos[0] == len(versions) - 1 \
+                        else 'spent-version-attached'
+                    what = 'an output the harness never broadcast as this channel' if not pos else f'version {pos[0] + 1}'
+                    rec.violation(f'C04/A6/listed-claim-does-not-validate-against-attached-channel/{which}',
+                                  f'{s["kind"]} {cid}: its signature verifies (ecdsa) under the key of the channel as broadcast last (version '
+                                  f'{len(versions)} of {len(versions)}); the listing attached {what} ({att.tx_ref.id}:{att.position}) as its '
+                                  f'channel and is_signed_by(attached channel) is False', {'tx': s['raw'], 'current_channel_tx': cur['raw'],
+                                                                                'attached_channel_txid': att.tx_ref.id,
+                                                                                'channel_versions_broadcast': [v['txid'] for v in versions]})
+
+        # ---- channel_create (held by the account that hands out the signing keys, as with the daemon's default arguments: the next
+        #      deterministic key is the first one no channel OF THAT ACCOUNT uses)
+        tx = await Transaction.claim_create('@' + text(r, 6).replace(' ', '_'), make_claim(r, 'channel'), r.randrange(10 ** 5, 10 ** 6),
+                                            await env.address(0, 0, r.randrange(20)), funding, funding[0])
+        key = await new_key()
+        tx.outputs[0].set_channel_private_key(key)
+        await tx.sign(funding)
+        check_inputs(rec, tx.raw, env.spent, {'flow': 'rotate/channel_create'})
+        await publish(tx)
+        record_version(tx, key.private_key_bytes)
+        channel_id = chansig.claim_hash(bytes.fromhex(versions[0]['txid'])[::-1], 0)[::-1].hex()
+
+        async def op_stream():
+            # stream_create --channel_id: Daemon.get_channel_or_error(for_signing=True)
+            found = await ledger.get_channels(wallet=wallet, accounts=funding, claim_id=channel_id)
+            if len(found) != 1 or not found[0].has_private_key:
+                rec.log('A6.create.channel_lookup_failed')
+                return
+            channel = found[0]
+            kind = r.choice(['stream', 'stream', 'repost', 'collection'])
+            try:
+                tx = await Transaction.claim_create(r.choice(['s', 'stream-name', 'ünï']) + str(len(held)), make_claim(r, kind),
+                                                    r.randrange(10 ** 4, 10 ** 6), await addr(), funding, funding[0], channel)
+            except InsufficientFundsError:
+                rec.log('rotate.insufficient_funds_step_skipped')
+                return
+            tx.outputs[0].sign(channel)
+            await tx.sign(funding)
+            ok, m = judge(tx, kind, 'create-with-reloaded-channel', False)
+            await publish(tx)
+            if ok:
+                held[chansig.claim_hash(bytes.fromhex(m['txid'])[::-1], 0)[::-1].hex()] = {'raw': tx.raw, 'kind': kind, 'pub': versions[-1]['pub']}
+
+        async def op_channel_update(replace_key):
+            nonlocal replaced
+            loaded = await ledger.get_claims(wallet=wallet, accounts=funding, claim_id=channel_id)
+            if len(loaded) != 1 or not loaded[0].claim.is_channel:
+                rec.log('A6.channel_update.channel_lookup_failed')
+                return
+            old = loaded[0]
+            claim = Claim.from_bytes(old.claim.to_bytes())
+            claim.message.title = text(r, 9)
+            try:
+                tx = await Transaction.claim_update(old, claim, old.amount, old.get_address(ledger), funding, funding[0])
+            except InsufficientFundsError:
+                rec.log('rotate.insufficient_funds_step_skipped')
+                return
+            new = tx.outputs[0]
+            if replace_key:
+                key = await new_key()
+                new.set_channel_private_key(key)
+                secret = key.private_key_bytes
+            else:
+                new.private_key = old.private_key
+                secret = versions[-1]['secret']
+            new.script.generate()
+            await tx.sign(funding)
+            check_inputs(rec, tx.raw, env.spent, {'flow': 'rotate/channel_update'})
+            await publish(tx)
+            record_version(tx, secret)
+            changed = versions[-1]['pub'] != versions[-2]['pub']         # what counts is the key in the bytes that were broadcast
+            if changed:
+                replaced += 1
+            rec.hit('A6.channel_key_replaced' if changed else 'A6.channel_key_kept')
+            if changed != bool(replace_key):
+                rec.log('A6.channel_update.key_on_wire_unexpected')
+
+        async def op_edit(cid):
+            # stream_update / collection_update <claim_id> --title=... : no channel arguments, the daemon signs with old_txo.channel
+            loaded = await ledger.get_claims(wallet=wallet, accounts=funding, claim_id=cid)
+            if len(loaded) != 1 or not loaded[0].claim.is_signed:
+                rec.log('A6.edit.claim_lookup_failed')
+                return
+            old = loaded[0]
+            channel = old.channel
+            if channel is None or not channel.has_private_key:
+                rec.log('A6.edit.no_signing_channel_attached')
+                return
+            claim = Claim.from_bytes(old.claim.to_bytes())
+            claim.message.title = text(r, 10)
+            try:
+                tx = await Transaction.claim_update(old, claim, old.amount, r.choice([old.get_address(ledger), await addr()]), funding,
+                                                    funding[0], channel)
+            except InsufficientFundsError:
+                rec.log('rotate.insufficient_funds_step_skipped')
+                return
+            tx.outputs[0].sign(channel)
+            await tx.sign(funding)
+            s = held[cid]
+            ok, _ = judge(tx, s['kind'], 'update-of-reloaded-claim', s['pub'] != versions[-1]['pub'])
+            await publish(tx)
+            if ok:
+                held[cid] = {'raw': tx.raw, 'kind': s['kind'], 'pub': versions[-1]['pub']}
+            else:
+                del held[cid]
+
+        ops = ['stream'] + r.sample(['stream', 'keep', 'edit', 'replace'], r.randrange(0, 3)) + ['replace'] + \
+            r.sample(['stream', 'keep', 'replace', 'edit', 'stream'], r.randrange(1, 4))
+        for op in ops:
+            if rec.out_of_time():
+                return
+            await maybe_block()
+            if op == 'stream':
+                await op_stream()
+            elif op in ('keep', 'replace'):
+                await op_channel_update(op == 'replace')
+            elif held:
+                await op_edit(r.choice(sorted(held)))
+            await observe_listing()
+        # every claim whose signature was made with a key the channel no longer carries is updated once, plus one that is up to date
+        stale = [cid for cid in sorted(held) if held[cid]['pub'] != versions[-1]['pub']]
+        fresh = [cid for cid in sorted(held) if cid not in stale]
+        for cid in stale + fresh[:1]:
+            await op_edit(cid)
+        await observe_listing()
+    finally:
+        await fx.close()
